@@ -147,12 +147,13 @@ ReadPaths  == {"index", "cindex", "at", "cat", "front", "cfront", "back", "cback
 WritePaths == {"index", "at", "front", "back", "iter", "riter"}
 IterPaths  == {"iter", "citer", "riter", "criter"}
 Navs       == {"plus", "minus", "inc", "dec", "sub", "arrow", "peq", "meq", "postinc"}
-PathOK(k, path, nav, i) ==
-    /\ i < Len(obj[k])
+PathOKn(n, path, nav, i) ==
+    /\ i < n
     /\ path \in {"front", "cfront"} => i = 0
-    /\ path \in {"back", "cback"} => i = Len(obj[k]) - 1
+    /\ path \in {"back", "cback"} => i = n - 1
     /\ IF path \in IterPaths THEN nav \in Navs ELSE nav = "na"
     /\ path \in {"iter", "citer"} => HasFwd
+PathOK(k, path, nav, i) == PathOKn(Len(obj[k]), path, nav, i)
 
 (* Read element i: the pair read component-wise from the proxy, followed by  *)
 (* the pair obtained by converting the proxy to value_type.                  *)
@@ -257,6 +258,46 @@ Algo(k, alg, i, m, j, new) ==
             /\ IsPermOf(SubSeq(new, i + 1, j), SubSeq(obj[k], i + 1, j))
     /\ Do("Algo", k, [alg |-> alg, i |-> i, m |-> m, j |-> j], new, Void)
 
+(* ---- Arguments that are ELEMENT PROXIES (round 4).  A value argument of a mutator may be the proxy of an element of *)
+(* a live container - of the very container the call modifies (v.resize(n, v[j]), v.resize(n, v.back()), v.resize(n, *it)): *)
+(* the argument ALIASES the storages the call is about to reallocate - or of the other object.  The proxy is obtained *)
+(* through any read path (const and non-const) and navigation.  What the statement says about the given value does   *)
+(* not depend on where the value lives: the new elements are copies of the pair the proxy designated when the call    *)
+(* was made.  s = k is the aliasing case.                                                                             *)
+ResizeFrom(k, n, s, spath, snav, j) ==
+    /\ IsVec /\ s \in {1, 2} /\ spath \in ReadPaths /\ PathOK(s, spath, snav, j)
+    /\ Do("ResizeFrom", k, [n |-> n, s |-> s, path |-> spath, nav |-> snav, j |-> j],
+          ResizeSeq(obj[k], n, obj[s][j + 1]), Void)
+(* T(n, other[j]): construction from a proxy into the other object *)
+CtorFrom(k, n, spath, snav, j) ==
+    /\ SizeOK(n) /\ spath \in ReadPaths /\ PathOK(Other(k), spath, snav, j)
+    /\ Do("CtorFrom", k, [n |-> n, path |-> spath, nav |-> snav, j |-> j], Fill(n, obj[Other(k)][j + 1]), Void)
+
+(* ---- Element assignment ACROSS containers: dst-proxy = src-proxy, where the source is an element of ANOTHER container   *)
+(* F at ANOTHER position.  F is a container of the sibling type (same flavour, same flag container, another value type - *)
+(* the only proxy-to-proxy assignment the optional flavour offers for non-const proxies) that holds `pad` default        *)
+(* elements followed by the pairs of the other object: the source position pad + j and the destination position i differ *)
+(* in general and, with pad >= the flag block width, lie in different flag blocks.  mv = 1: the source proxy is an rvalue *)
+(* (std::move).  The write lands in pair i of object k and nowhere else.                                                  *)
+XSrc(k, pad) == Fill(pad, Dflt) \o obj[Other(k)]
+XAssign(k, path, nav, i, pad, spath, snav, j, mv) ==
+    /\ HasAssign /\ path \in WritePaths /\ PathOK(k, path, nav, i)
+    /\ pad \in Nat /\ (~IsVec => pad = 0) /\ mv \in {0, 1}
+    /\ spath \in ReadPaths /\ j < Len(obj[Other(k)]) /\ PathOKn(pad + Len(obj[Other(k)]), spath, snav, pad + j)
+    /\ Do("XAssign", k, [path |-> path, nav |-> nav, i |-> i, pad |-> pad, spath |-> spath, snav |-> snav, j |-> j, mv |-> mv],
+          SetAt(obj[k], i, XSrc(k, pad)[pad + j + 1]), Void)
+(* std::copy(F.begin() + pad + i, F.begin() + pad + j, dst) with dst = begin() + m (dir "fwd") or rbegin() + m (dir "rev"): *)
+(* a run of such assignments through non-const iterators of both containers at shifted positions.                        *)
+XCopyInto(sq, t, i, j, m, dir) ==
+    [x \in 1..Len(sq) |-> LET d == IF dir = "fwd" THEN x - 1 - m ELSE Len(sq) - x - m IN
+                            IF d >= 0 /\ d < j - i THEN t[i + d + 1] ELSE sq[x]]
+XCopy(k, pad, i, j, m, dir) ==
+    /\ HasAssign /\ HasFwd /\ dir \in {"fwd", "rev"}
+    /\ pad \in Nat /\ (~IsVec => pad = 0)
+    /\ i <= j /\ j <= Len(obj[Other(k)]) /\ m + (j - i) <= Len(obj[k])
+    /\ Do("XCopy", k, [pad |-> pad, i |-> i, j |-> j, m |-> m, dir |-> dir],
+          XCopyInto(obj[k], obj[Other(k)], i, j, m, dir), Void)
+
 (* max_size() is at least size() (values >= 2^30 are logged as 2^30) *)
 MaxSize(k, m) == m >= Len(obj[k]) /\ Obs("MaxSize", k, NoArg, Ok(<<m>>))
 
@@ -296,6 +337,9 @@ Init ==
 
 C(c) == c \in Classes
 NavsOf(path) == IF path \in IterPaths THEN Navs ELSE {"na"}
+(* the model checker's choice of source navigations and paddings for the proxy-argument actions *)
+XNavsOf(path) == IF path \in IterPaths THEN {"plus", "dec"} ELSE {"na"}
+XPads == IF IsVec THEN {0, 65} ELSE {0}
 NextT(k) ==
     \/ C("ctor") /\ \E how \in {"dinit", "vinit"} : CtorDefault(k, how)
     \/ C("ctor") /\ \E n \in Sizes : CtorN(k, n)
@@ -323,6 +367,16 @@ NextT(k) ==
            /\ (which = "b" => x \in BDom)
            /\ WriteUnder(k, which, i, x)
     \/ C("under") /\ \E which \in {"a", "b"} : Extract(k, which)
+    \/ C("alias") /\ \E n \in Sizes, s \in {1, 2}, spath \in ReadPaths : \E j \in Idx(s), snav \in XNavsOf(spath) :
+           /\ (s # k => spath \in {"index", "citer", "back"})
+           /\ ResizeFrom(k, n, s, spath, snav, j)
+    \/ C("alias") /\ \E n \in Sizes, spath \in {"index", "cindex", "front", "cback", "iter", "criter"}, j \in Idx(Other(k)) :
+           \E snav \in XNavsOf(spath) : CtorFrom(k, n, spath, snav, j)
+    \/ C("xassign") /\ \E i \in Idx(k), j \in Idx(Other(k)), pad \in XPads, mv \in {0, 1} :
+           \/ \E path \in WritePaths : \E nav \in NavsOf(path) : mv = 0 /\ XAssign(k, path, nav, i, pad, "index", "na", j, mv)
+           \/ \E spath \in ReadPaths : \E snav \in XNavsOf(spath) : XAssign(k, "index", "na", i, pad, spath, snav, j, mv)
+    \/ C("xassign") /\ \E i \in 0..Len(obj[Other(k)]), j \in 0..Len(obj[Other(k)]), m \in 0..Len(obj[k]), pad \in XPads, dir \in {"fwd", "rev"} :
+           XCopy(k, pad, i, j, m, dir)
     \/ C("iter") /\ \E path \in IterPaths, i \in 0..Len(obj[k]), j \in 0..Len(obj[k]) : IterRel(k, path, i, j)
     \/ C("iter") /\ Feature(k, "fwd_iter")
     \/ C("algo") /\ \E i \in 0..Len(obj[k]), j \in 0..Len(obj[k]) : i <= j /\
@@ -338,8 +392,8 @@ Next == (\E k \in Targets : NextT(k)) \/ (\E k \in {1, 2} \ Targets : NextO(k))
 (* constraint writes each transition (pre-state, call) as one JSON line on TLC's output.    *)
 (* Calls that do not involve the other object are written once (other object as default-    *)
 (* constructed), copy/move calls for every content the other object is given.               *)
-PairOps == {"CtorCopy", "CopyAssign", "CtorMove", "MoveAssign", "Rel", "Algo"}
-Emit == (last'.op \in EmitOps /\ (last'.op \in PairOps \/ pre'[2] = Fill(N0, Dflt))) =>
+PairOps == {"CtorCopy", "CopyAssign", "CtorMove", "MoveAssign", "Rel", "Algo", "CtorFrom", "XAssign", "XCopy"}
+Emit == (last'.op \in EmitOps /\ (last'.op \in PairOps \/ pre'[2] = Fill(N0, Dflt) \/ (last'.op = "ResizeFrom" /\ last'.a.s # last'.k))) =>
             PrintT("@E@" \o ToJson([c |-> cfg, p |-> pre', l |-> [op |-> last'.op, k |-> last'.k, a |-> last'.a]]))
 
 SizeBound == Len(obj[1]) <= MaxLen /\ Len(obj[2]) <= MaxLen
@@ -364,7 +418,7 @@ ObserverOps == {"At", "Read", "Extract", "IterRel", "Feature", "MaxSize", "Rel"}
 ObserversPure == [][last'.op \in ObserverOps => obj' = obj]_vars
 FailedChangesNothing == [][last'.res.exc # "none" => obj' = obj]_vars
 (* resize keeps the common prefix, creates exactly the requested new elements and never touches the other object *)
-ResizeOps == {"Resize", "ResizeV", "ResizeO"}
+ResizeOps == {"Resize", "ResizeV", "ResizeO", "ResizeFrom"}
 ResizeLaw == [][last'.op \in ResizeOps =>
                   LET k == last'.k  n == last'.a.n IN
                     /\ Len(obj'[k]) = n
@@ -372,6 +426,7 @@ ResizeLaw == [][last'.op \in ResizeOps =>
                     /\ \A i \in 1..n : i > Len(obj[k]) =>
                           obj'[k][i] = (CASE last'.op = "Resize" -> <<0, 0>>
                                           [] last'.op = "ResizeV" -> (IF IsOpt THEN <<last'.a.v[1], 1>> ELSE last'.a.v)
+                                          [] last'.op = "ResizeFrom" -> obj[last'.a.s][last'.a.j + 1]     \* the pair the proxy designated BEFORE the call
                                           [] OTHER -> last'.a.e)
                     /\ obj'[Other(k)] = obj[Other(k)]]_vars
 (* a move leaves the target with exactly what the source held *)
@@ -382,7 +437,7 @@ SwapLaw == [][last'.op = "ProxySwap" =>
                     /\ Len(obj'[k]) = Len(obj[k]) /\ obj'[Other(k)] = obj[Other(k)]
                     /\ \A m \in 1..Len(obj[k]) : (m # last'.a.i + 1 /\ m # last'.a.j + 1) => obj'[k][m] = obj[k][m]]_vars
 (* a write changes exactly one element of exactly one object *)
-WriteLaw == [][last'.op \in {"Write", "WriteUnder"} =>
+WriteLaw == [][last'.op \in {"Write", "WriteUnder", "XAssign"} =>
                   LET k == last'.k  i == last'.a.i IN
                     /\ Len(obj'[k]) = Len(obj[k])
                     /\ \A m \in 1..Len(obj[k]) : m # i + 1 => obj'[k][m] = obj[k][m]
@@ -398,6 +453,19 @@ AlgoLaw == [][last'.op = "Algo" =>
                         /\ \A x \in 1..Len(obj[k]) : (x <= i \/ x > j) => obj'[k][x] = obj[k][x])
                   /\ (last'.a.alg = "sort" => \A x \in (i + 1)..(j - 1) : PairLE(obj'[k][x], obj'[k][x + 1]))
                   /\ (last'.a.alg = "reverse" => SegRev(obj'[k], i, j) = obj[k])]_vars
+(* a cross-container element assignment stores exactly the pair the source proxy designated; a cross-container copy keeps the size,
+   the other object and everything outside its destination window, and the window holds the source run in order *)
+XAssignLaw == [][last'.op = "XAssign" => obj'[last'.k][last'.a.i + 1] = obj[Other(last'.k)][last'.a.j + 1]]_vars
+XCopyLaw == [][last'.op = "XCopy" =>
+                LET k == last'.k  i == last'.a.i  j == last'.a.j  m == last'.a.m  n == Len(obj[k]) IN
+                  /\ Len(obj'[k]) = n /\ obj'[Other(k)] = obj[Other(k)]
+                  /\ \A d \in 0..(j - i - 1) :
+                        obj'[k][IF last'.a.dir = "fwd" THEN m + d + 1 ELSE n - m - d] = obj[Other(k)][i + d + 1]
+                  /\ Cardinality({x \in 1..n : obj'[k][x] # obj[k][x]}) <= j - i]_vars
+(* construction from a proxy: n copies of the designated pair *)
+CtorFromLaw == [][last'.op = "CtorFrom" =>
+                   /\ Len(obj'[last'.k]) = last'.a.n
+                   /\ \A x \in 1..last'.a.n : obj'[last'.k][x] = obj[Other(last'.k)][last'.a.j + 1]]_vars
 (* elements created by default construction are missing / zero *)
 DefaultLaw == [][last'.op \in {"CtorDefault", "CtorN"} =>
                   \A i \in 1..Len(obj'[last'.k]) : obj'[last'.k][i] = <<0, 0>>]_vars
